@@ -1006,4 +1006,25 @@ theorem mod_ok {s : St} (h : Inv s) {r n d : Nat} (hr : r < s.nv) (hn : n < s.nv
       · rw [vr1]; unfold DivZ.modS; rw [hspec]; simp [hne, hneg, DivZ.tdivR]
       · exact hsame s1 rfl
 
+/-! ### states built from values -/
+
+theorem ofInts_value (zs : List Int) (i : Nat) (hi : i < zs.length) : (ofInts zs).value i = zs.getD i 0 := by
+  unfold St.value St.mag St.limbs St.size St.ptr
+  simp only [ofInts, hi, if_true, Option.getD_some]
+  set z := zs.getD i 0
+  rw [DivZ.siz_natAbs, toLimbs_take _ _ _ (Nat.le_max_left _ _), val_toLimbs_lt (DivZ.lt_B_pow_sizeNat _)]
+  have := @DivZ.siz_neg_iff z
+  split <;> omega
+
+theorem ofInts_inv (zs : List Int) : Inv (ofInts zs) := by
+  refine ⟨fun i hi => ?_, fun i j _ _ e => e, fun i hi => hi, fun p hp => ?_, fun i hi => ?_, fun i hi => ?_⟩
+  · have hi' : i < zs.length := hi
+    refine ⟨toLimbs (max (sizeNat (zs.getD i 0).natAbs) 1) (zs.getD i 0).natAbs, ?_, ?_, Limbs_toLimbs _ _⟩
+    · simp [ofInts, St.ptr, hi']
+    · simp [ofInts, St.alloc, toLimbs_length]
+  · have hp' : zs.length ≤ p := hp
+    simp only [ofInts]; rw [if_neg (by omega)]
+  · simp only [St.size, St.alloc, ofInts]; rw [DivZ.siz_natAbs]; exact Nat.le_max_left _ _
+  · rw [ofInts_value zs i hi]; rfl
+
 end Mpir.AliasMem
